@@ -17,13 +17,13 @@ MANIFEST = {
         text="Exhaustive TLC exploration of specs/LRU: threads executing Put/Get/LoadAndDelete/Len/Size/Range as the "
              "code's step sequence between the verif yield points of lru.go (Lock + index access, list/size update with "
              "the evict loop + index update, Unlock; every error exit; a value whose Size() starts failing), for 2 threads "
-             "x 2 operations and 3 x 1 (quick), additionally 2 x 3 and 3 x 2 (thorough) over 2-3 keys, value sizes 1-2, "
+             "x 2 operations and 3 x 1 (quick), additionally 2 x 3, 3 x 2 and 3 x 3 (thorough) over 2-3 keys, value sizes 1-2, "
              "capacity 2-3, and all sequential histories of <= 4 (quick) / <= 6 (thorough) operations incl. 3-key "
              "configurations in which eviction has a choice of victim. EVERY transition is replayed on the real lru.Cache "
              "by a scheduler that releases exactly one real goroutine per model step at the hooks; after each step "
              "Len/Size/Range/RangeFILO and ll/index/size are projected (zero drift on the unchanged tree). LRUProps.tla "
              "(capacity, size/len exactness, index and list one map, linearizability of every returned result against an "
-             "atomic sequential LRU, LRU order, usable after a failed call) is evaluated by TLC. Plus 400 / 4000 "
+             "atomic sequential LRU, LRU order, usable after a failed call) is evaluated by TLC. Plus 400 / 12000 "
              "free-running histories of 3 real goroutines (no scheduling; call/return logged) judged for "
              "linearizability by TLC.",
         note="Bounded: <=3 threads, <=2-3 operations per thread, 2-3 keys, 2-3 values, one or two poisoned values. "
@@ -59,6 +59,8 @@ def cfg(name, NT, OpsPer, Cap, sizes, inits, kinds, poison=0, maxel=8, nk=2):
 
 
 def configs(tier):
+    # The model of the code before 81bf7f7 (FixLocked = FALSE: index access outside the lock, four steps per
+    # Put) has ~60 times more states for the same constants; it gets smaller configurations.
     fixed = CODE_VERSION.get("FixLocked")
     if tier == "quick":
         if fixed:
@@ -325,7 +327,7 @@ def run(prop_id, tier, seed, replay=None):
         def build():
             return family.build_overlay_test(PKG, [DRIVER], os.path.join(sc, "lru.test"))
         tot = _Sum()
-        observed, exp, npaths, unreach_tot = [], {}, 0, 0
+        observed, npaths, unreach_tot = [], 0, 0
         per_cfg = {}
         if replay:
             pf = os.path.join(sc, "paths.ndjson")
@@ -360,6 +362,10 @@ def run(prop_id, tier, seed, replay=None):
         next_id = 0
         dsteps = ddrift = 0
         dsamples = []
+        need, clean_samp, violating = [], [], []
+        n_clean = 0
+        ns = 150 if tier == "quick" else 600
+        stubs = {}
         for c, tlc in zip(cfgs, tlcs):
             g = load_graph(tlc)
             paths, unreach = core.edge_cover(g, rng)
@@ -368,6 +374,7 @@ def run(prop_id, tier, seed, replay=None):
             pf = os.path.join(sc, "paths-%s.ndjson" % c["name"])
             # path ids are unique over all configurations
             init_obs = {n: o for n, o in g.inits}
+            exp = {}
             with open(pf, "w") as f:
                 for p in paths:
                     steps = [{"act": g.edges[e][1], "obs": g.edges[e][3], "viol": g.edges[e][4]} for e in p]
@@ -378,10 +385,23 @@ def run(prop_id, tier, seed, replay=None):
             obs_c, _ = family.run_driver(binary, "TestVerifLRUReplay", pf,
                                          os.path.join(sc, "obs-%s.ndjson" % c["name"]), sc)
             _log(t0, c["name"], "replayed", len(paths), "paths")
-            ns, nd, smp = family.drift(pf, obs_c, label=label)
-            dsteps += ns
+            ns_, nd, smp = family.drift(pf, obs_c, label=label)
+            dsteps += ns_
             ddrift += nd
             dsamples += [dict(s, config=c["name"]) for s in smp][:3]
+            need_c, clean_c, viol_c = split_observed(exp, obs_c)
+            need += need_c
+            violating += viol_c
+            n_clean += len(clean_c)
+            keep = rng.sample(clean_c, min(ns, len(clean_c)))
+            clean_samp += keep
+            # traces that equal a violation-free model path are not needed any more: keep their shape only
+            keep_ids = {t["id"] for t in keep}
+            for i, t in enumerate(obs_c):
+                if len(observed) + i >= 3 and t["id"] not in keep_ids and not t.get("error") \
+                        and conforms(t, exp[t["id"]]) and not any(m["viol"] for m in exp[t["id"]]["steps"]):
+                    n = len(t["steps"])
+                    obs_c[i] = {"id": t["id"], "steps": stubs.setdefault(n, [None] * n)}
             observed += obs_c
             npaths += len(paths)
             unreach_tot += unreach
@@ -395,14 +415,13 @@ def run(prop_id, tier, seed, replay=None):
                                       transitions=len(g.edges), model_violating_edges=nviol, paths=len(paths),
                                       tlc_wall_s=round(tlc.wall, 1), drift_paths=nd)
             shutil.rmtree(os.path.join(sc, "tlc-" + c["name"]), ignore_errors=True)
-            del g
+            os.remove(pf)
+            del g, exp, obs_c
 
-        need, clean, violating = split_observed(exp, observed)
         free_obs, free_cfg = free_run(binary, sc, tier, seed, next_id)
-        _log(t0, "free-running done", len(free_obs), "need", len(need), "clean", len(clean), "violating", len(violating))
+        _log(t0, "free-running done", len(free_obs), "need", len(need), "clean", n_clean, "violating", len(violating))
         # cross-check sample of the verdicts taken from the export
-        ns = 150 if tier == "quick" else 600
-        samp_c = rng.sample(clean, min(ns, len(clean)))
+        samp_c = rng.sample(clean_samp, min(ns, len(clean_samp)))
         samp_v = rng.sample(violating, min(ns, len(violating)))
         samp_vt = [dict(t, steps=t["steps"][:step]) for (t, step, _) in samp_v]
         known = core.load_known()
@@ -435,7 +454,7 @@ def run(prop_id, tier, seed, replay=None):
         extra = {"configs": per_cfg, "code_version": CODE_VERSION,
                  "edges_only_reachable_through_model_violation": unreach_tot,
                  "verdicts": dict(
-                     traces_equal_to_model_path_judged_at_export=len(clean) + len(violating),
+                     traces_equal_to_model_path_judged_at_export=n_clean + len(violating),
                      of_which_violating=len(violating),
                      traces_off_model_path_judged_separately=len(need),
                      cross_checked_by_separate_tlc_run=len(samp_c) + len(samp_vt),
